@@ -13,15 +13,16 @@ Everything the code does not decide itself (bracket drawn from the manager's
 -/
 namespace SyneTune
 
-inductive HBType | stopping | promotion
+inductive HBType | stopping | promotion | pasha | costPromotion | rushStopping | rushPromotion
 deriving DecidableEq, Repr, Inhabited
 
 def HBType.pauseResume : HBType → Bool
   | .stopping => false
-  | .promotion => true
+  | .rushStopping => false
+  | _ => true
 
 /-- Error kinds of the model (Python `assert` / exception). -/
-inductive Err | assertion (what : String) | keyError (what : String)
+inductive Err | assertion (what : String) | keyError (what : String) | indexError (what : String)
 deriving DecidableEq, Repr
 
 /-- Result of `rung_sys.on_task_report` / `terminator.on_task_report`. -/
@@ -39,6 +40,14 @@ structure RungSys where
   rungs : List Rung
   maxT : Nat
   running : List (Nat × (Nat × Option Nat)) := []
+  -- RUSH (`RUSHDecider`): `_num_threshold_candidates`, `_thresholds : resource ↦ value`
+  numThr : Nat := 0
+  thresholds : List (Nat × Rat) := []
+  -- PASHA: `rung_levels` (increasing), `current_rung_idx`, `current_max_t`, `epsilon`
+  levelsAsc : List Nat := []
+  curIdx : Nat := 0
+  curMaxT : Nat := 0
+  epsilon : Rat := 0
 deriving Repr, Inhabited
 
 /-- `self._rungs[:(-skip_rungs)]` for `skip_rungs > 0`, else all. -/
@@ -61,7 +70,7 @@ def RungSys.milestones (s : RungSys) (skip : Nat) : List Nat :=
 def taskContinues (m : Mode) (v : Rat) (rg : Rung) (hint : Bool) : Bool × Bool :=
   match rg.cutoff m with
   | none => (true, false)
-  | some c => let cmp := cmpNoWorse m v c; (cmp.resolve hint, cmp.isFree)
+  | some c => let cmp := cmpNoWorse m v c rg.scale; (cmp.resolve hint, cmp.isFree)
 
 /-- The `for rung in self._milestone_rungs(skip_rungs)` loop of
 `StoppingRungSystem.on_task_report`; `next` is the loop variable `next_milestone`. -/
@@ -97,18 +106,83 @@ def firstUnpromoted : List Entry → Nat → Option (Entry × Nat)
   | [], _ => none
   | e :: es, pos => if !e.promoted then some (e, pos) else firstUnpromoted es (pos + 1)
 
-/-- `PromotionRungSystem._find_promotable_trial` : `(trial_id, pos, free)`. -/
-def findPromotable (m : Mode) (rg : Rung) (hint : Option Nat) : Option (Nat × Nat) × Bool :=
-  match rg.cutoff m with
-  | none => (none, false)
-  | some c =>
-    match firstUnpromoted rg.data 0 with
-    | none => (none, false)
-    | some (e, pos) =>
-      -- `sign * (metric_val - cutoff) < 0` ⇒ not good enough.  i.e. promotable iff no worse
-      let cmp := cmpNoWorse m e.val c
-      -- a free comparison follows the implementation: `hint` = level it resumed from
-      if cmp.resolve (hint == some rg.level) then (some (e.tid, pos), cmp.isFree) else (none, cmp.isFree)
+/-! #### RUSH decider -/
+
+/-- `RUSHDecider._return_better(thr, v)` with `thr = None ↦ ±inf` (Python `min`/`max`:
+the first argument wins ties). -/
+def rushBetter (m : Mode) (thr : Option Rat) (v : Rat) : Rat :=
+  match thr with
+  | none => v
+  | some t => match m with
+    | .min => if v < t then v else t
+    | .max => if t < v then v else t
+
+/-- `RUSHDecider.task_continues` : `(continues, thresholds')`. -/
+def rushDecide (m : Mode) (numThr : Nat) (thr : List (Nat × Rat)) (tc : Bool) (tid : Nat) (v : Rat)
+    (resource : Nat) : Bool × List (Nat × Rat) :=
+  if !tc then (false, thr)
+  else if tid < numThr then (true, aset resource (rushBetter m (alookup resource thr) v) thr)
+  else (decide (rushBetter m (alookup resource thr) v = v), thr)
+
+/-- RUSH promotion: the `for pos, entry in enumerate(rung.data): if self._is_promotable_trial(...)`
+scan, threading the thresholds (a threshold candidate updates its level's threshold when
+scanned). -/
+def rushFirstPromotable (m : Mode) (numThr : Nat) (level : Nat) :
+    List Entry → Nat → List (Nat × Rat) → Option (Entry × Nat) × List (Nat × Rat)
+  | [], _, thr => (none, thr)
+  | e :: es, pos, thr =>
+    let d := rushDecide m numThr thr (!e.promoted) e.tid e.val level
+    if d.1 then (some (e, pos), d.2) else rushFirstPromotable m numThr level es (pos + 1) d.2
+
+/-- cost-aware promotion: scan with running cost sum against `threshold`; the comparison
+`sum_costs > cost_threshold` is forced/free (threshold is a float product in the code). -/
+def costFirstPromotable (threshold total : Rat) (level : Nat) (hint : Option Nat) :
+    List Entry → Nat → Rat → Option (Entry × Nat) × Bool
+  | [], _, _ => (none, false)
+  | e :: es, pos, acc =>
+    let sum := acc + e.cost
+    let cmp := cmpLe sum threshold (absRat total)   -- `not (sum_costs > cost_threshold)`
+    -- a free comparison follows the implementation: promoted from this level or not
+    let within := cmp.resolve (hint == some level)
+    if !within then (none, cmp.isFree)
+    else if !e.promoted then (some (e, pos), cmp.isFree)
+    else
+      let r := costFirstPromotable threshold total level hint es (pos + 1) sum
+      (r.1, cmp.isFree || r.2)
+
+structure FindOut where
+  pick : Option (Nat × Nat)        -- `(trial_id, pos)`
+  free : Bool
+  thr : List (Nat × Rat)
+deriving Repr
+
+/-- `_find_promotable_trial` of `PromotionRungSystem` (also PASHA), `RUSHPromotionRungSystem`
+(via `_is_promotable_trial`) and `CostPromotionRungSystem`. -/
+def findPromotable (ty : HBType) (m : Mode) (numThr : Nat) (thr : List (Nat × Rat)) (rg : Rung)
+    (hint : Option Nat) : FindOut :=
+  match ty with
+  | .costPromotion =>
+    if rg.data.length > 1 then
+      let total := (rg.data.map (·.cost)).foldl (· + ·) 0
+      let r := costFirstPromotable (total * rg.q) total rg.level hint rg.data 0 0
+      { pick := r.1.map (fun x => (x.1.tid, x.2)), free := r.2, thr := thr }
+    else { pick := none, free := false, thr := thr }
+  | _ =>
+    match rg.cutoff m with
+    | none => { pick := none, free := false, thr := thr }
+    | some c =>
+      let cand : Option (Entry × Nat) × List (Nat × Rat) :=
+        if ty = .rushPromotion then rushFirstPromotable m numThr rg.level rg.data 0 thr
+        else (firstUnpromoted rg.data 0, thr)
+      match cand.1 with
+      | none => { pick := none, free := false, thr := cand.2 }
+      | some (e, pos) =>
+        -- `sign * (metric_val - cutoff) < 0` ⇒ not good enough, i.e. promotable iff no worse
+        let cmp := cmpNoWorse m e.val c rg.scale
+        -- a free comparison follows the implementation: `hint` = level it resumed from
+        if cmp.resolve (hint == some rg.level) then
+          { pick := some (e.tid, pos), free := cmp.isFree, thr := cand.2 }
+        else { pick := none, free := cmp.isFree, thr := cand.2 }
 
 /-- `_mark_as_promoted`: pop position `pos`, set flag, re-insert (`SortedList.add`). -/
 def markPromoted (m : Mode) (rg : Rung) (pos : Nat) : Rung :=
@@ -122,35 +196,47 @@ structure SchedOut where
   milestone : Nat
 deriving DecidableEq, Repr
 
+structure ScanOut where
+  rungs : List Rung
+  out : Option SchedOut
+  free : Bool
+  thr : List (Nat × Rat)
+deriving Repr
+
 /-- loop of `PromotionRungSystem.on_task_schedule` over `_rungs` (decreasing levels);
-`cap` is `_effective_max_t()`; `hints` gives one hint per rung scanned that needs one. -/
-def promoScan (m : Mode) (cap : Nat) (hint : Option Nat) (next : Nat) :
-    List Rung → List Rung × Option SchedOut × Bool
-  | [] => ([], none, false)
+`cap` is `_effective_max_t()`. -/
+def promoScan (ty : HBType) (m : Mode) (numThr : Nat) (cap : Nat) (hint : Option Nat) (next : Nat)
+    (thr : List (Nat × Rat)) : List Rung → ScanOut
+  | [] => { rungs := [], out := none, free := false, thr := thr }
   | rg :: rest =>
     if rg.level < cap then
-      match findPromotable m rg hint with
-      | (some (tid, pos), fr) =>
-        (markPromoted m rg pos :: rest, some ⟨tid, rg.level, next⟩, fr)
-      | (none, fr) =>
-        let res := promoScan m cap hint rg.level rest
-        (rg :: res.1, res.2.1, fr || res.2.2)
+      let f := findPromotable ty m numThr thr rg hint
+      match f.pick with
+      | some (tid, pos) =>
+        { rungs := markPromoted m rg pos :: rest, out := some ⟨tid, rg.level, next⟩, free := f.free, thr := f.thr }
+      | none =>
+        let res := promoScan ty m numThr cap hint rg.level f.thr rest
+        { res with rungs := rg :: res.rungs, free := f.free || res.free }
     else
-      let res := promoScan m cap hint rg.level rest
-      (rg :: res.1, res.2.1, res.2.2)
+      let res := promoScan ty m numThr cap hint rg.level thr rest
+      { res with rungs := rg :: res.rungs }
+
+/-- `_effective_max_t()`. -/
+def RungSys.cap (s : RungSys) (ty : HBType) : Nat :=
+  if ty = .pasha then s.curMaxT else s.maxT
 
 /-- `PromotionRungSystem.on_task_schedule`. -/
-def RungSys.promoSchedule (s : RungSys) (m : Mode) (cap : Nat) (hint : Option Nat) :
+def RungSys.promoSchedule (s : RungSys) (ty : HBType) (m : Mode) (hint : Option Nat) :
     RungSys × Option SchedOut × Bool :=
-  let res := promoScan m cap hint s.maxT s.rungs
-  ({ s with rungs := res.1 }, res.2.1, res.2.2)
+  let res := promoScan ty m s.numThr (s.cap ty) hint s.maxT s.thresholds s.rungs
+  ({ s with rungs := res.rungs, thresholds := res.thr }, res.out, res.free)
 
 /-- `_rung_pos_for_level`. -/
 def rungPos (rungs : List Rung) (level : Nat) : Option Nat :=
   rungs.findIdx? (fun r => r.level == level)
 
 /-- `PromotionRungSystem.on_task_report`. -/
-def RungSys.promoReport (s : RungSys) (m : Mode) (tid r : Nat) (v : Rat) :
+def RungSys.promoReport (s : RungSys) (m : Mode) (tid r : Nat) (v : Rat) (cost : Rat := 0) :
     Except Err (RungSys × RepOut) :=
   match alookup tid s.running with
   | none => .error (.keyError "_running")
@@ -165,13 +251,99 @@ def RungSys.promoReport (s : RungSys) (m : Mode) (tid r : Nat) (v : Rat) :
         | none => .error (.assertion "rung_pos")
         | some rg =>
           if rg.contains tid then .error (.assertion "trial_id not in rung") else
-          let rg' := rg.add m { tid := tid, val := v }
+          let rg' := rg.add m { tid := tid, val := v, cost := cost }
           let nxt := if pos > 0 then (match s.rungs[pos - 1]? with | some u => u.level | none => s.maxT)
                      else s.maxT
           .ok ({ s with rungs := s.rungs.set pos rg' },
                { continues := false, reached := true, next := some nxt, ignoreData := ignore })
     else
       .ok (s, { continues := true, reached := false, next := none, ignoreData := ignore })
+
+/-- `RUSHStoppingRungSystem.on_task_report`: the decider is applied to the outcome of
+`_task_continues` at the rung that was reached (`rung.level = resource`). -/
+def RungSys.rushStopReport (s : RungSys) (m : Mode) (tid r : Nat) (v : Rat) (skip : Nat)
+    (hint : Bool) : RungSys × RepOut :=
+  let res := s.stopReport m tid r v skip hint
+  if res.2.reached ∧ r ≠ s.maxT then
+    let d := rushDecide m s.numThr s.thresholds res.2.continues tid v r
+    ({ res.1 with thresholds := d.2 }, { res.2 with continues := d.1 })
+  else res
+
+/-! #### PASHA -/
+
+/-- Python list indexing with a possibly negative index. -/
+def pyIndex {α} (l : List α) (i : Int) : Option α :=
+  if 0 ≤ i then l[i.toNat]? else
+    if (l.length : Int) + i < 0 then none else l[((l.length : Int) + i).toNat]?
+
+/-- `(trial_id, value)` in `rung.data` order; ranks are positions (min) or reversed
+positions (max) and sorting by rank (`reverse` for max) returns exactly this order. -/
+def rankingOf (rg : Rung) : List (Nat × Rat) := rg.data.map (fun e => (e.tid, e.val))
+
+/-- forward / backward extension of a group in `_evaluate_soft_ranking` -/
+def groupForward (m : Mode) (eps v : Rat) : List (Nat × Rat) → List Nat
+  | [] => []
+  | (t, x) :: rest =>
+    let stop := match m with | .max => decide (x < v - eps) | .min => decide (x > v + eps)
+    if stop then [] else t :: groupForward m eps v rest
+
+def groupBackward (m : Mode) (eps v : Rat) : List (Nat × Rat) → List Nat
+  | [] => []
+  | (t, x) :: rest =>
+    let stop := match m with | .max => decide (x > v + eps) | .min => decide (x < v - eps)
+    if stop then [] else t :: groupBackward m eps v rest
+
+/-- groups of the previous rung: for index `idx`, own id, followers, predecessors (nearest first) -/
+def softGroups (m : Mode) (eps : Rat) (prev : List (Nat × Rat)) : List (List Nat) :=
+  (List.range prev.length).map fun idx =>
+    match prev[idx]? with
+    | none => []
+    | some (t, v) =>
+      t :: groupForward m eps v (prev.drop (idx + 1)) ++ groupBackward m eps v (prev.take idx).reverse
+
+/-- `_evaluate_soft_ranking`: `keep_current_budget`, or IndexError when the top rung holds
+more entries than the filtered previous rung. -/
+def softRankingKeeps (m : Mode) (epsilon : Rat) (top prev : List (Nat × Rat)) : Except Err Bool :=
+  let eps := if prev.length < 2 then 0 else epsilon
+  let groups := softGroups m eps prev
+  let rec go : List (Nat × Rat) → Nat → Except Err Bool
+    | [], _ => .ok true
+    | (t, _) :: rest, idx =>
+      match groups[idx]? with
+      | none => .error (.indexError "previous_rung_groups")
+      | some g => if g.contains t then go rest (idx + 1) else .ok false
+  go top 0
+
+/-- `_decide_resource_increase(_get_top_two_rungs_rankings())`. -/
+def RungSys.pashaIncrease (s : RungSys) (m : Mode) : Except Err Bool :=
+  match pyIndex s.rungs (-(s.curIdx : Int)), pyIndex s.rungs (-(s.curIdx : Int) + 1) with
+  | some topR, some prevR =>
+    if topR.data.isEmpty ∨ prevR.data.isEmpty then .ok false else
+    let top := rankingOf topR
+    let prev := (rankingOf prevR).filter (fun e => top.any (fun x => x.1 == e.1))
+    match softRankingKeeps m s.epsilon top prev with
+    | .error e => .error e
+    | .ok keep => .ok (!keep)
+  | _, _ => .error (.indexError "_rungs")
+
+/-- `PASHARungSystem.on_task_report`; `eps` = the value of `self.epsilon` after
+`_update_epsilon()` (numpy percentile over a set-ordered list: an input, DESIGN C04-R). -/
+def RungSys.pashaReport (s : RungSys) (m : Mode) (tid r : Nat) (v : Rat) (eps : Rat) :
+    Except Err (RungSys × RepOut) :=
+  match s.promoReport m tid r v with
+  | .error e => .error e
+  | .ok res =>
+    let s1 := { res.1 with epsilon := eps }
+    match s1.pashaIncrease m with
+    | .error e => .error e
+    | .ok inc =>
+      if inc then
+        if s1.curIdx < s1.rungs.length then
+          match s1.levelsAsc[s1.curIdx]? with
+          | none => .error (.indexError "rung_levels")
+          | some l => .ok ({ s1 with curIdx := s1.curIdx + 1, curMaxT := l }, res.2)
+        else .ok ({ s1 with curMaxT := s1.maxT }, res.2)
+      else .ok (s1, res.2)
 
 /-! ### bracket manager -/
 
@@ -194,14 +366,25 @@ def mkRungSys (levels : List Nat) (quants : List Rat) (maxT : Nat) : RungSys :=
   { rungs := (List.zipWith (fun l q => ({ level := l, q := q, data := [] } : Rung)) levels quants).reverse,
     maxT := maxT }
 
+/-- PASHA constructor: `current_rung_idx = min(len(rung_levels) - 1, 2)`,
+`current_max_t = rung_levels[current_rung_idx - 1]` (Python index, may be `-1`). -/
+def RungSys.initPasha (s : RungSys) (levels : List Nat) : RungSys :=
+  let idx : Nat := min (levels.length - 1) 2
+  let cm := match pyIndex levels ((idx : Int) - 1) with | some l => l | none => 0
+  { s with levelsAsc := levels, curIdx := idx, curMaxT := cm }
+
+def mkSys (type : HBType) (numThr : Nat) (levels : List Nat) (quants : List Rat) (maxT : Nat) : RungSys :=
+  let s := { mkRungSys levels quants maxT with numThr := numThr }
+  if type = .pasha then s.initPasha levels else s
+
 def Manager.init (type : HBType) (mode : Mode) (maxT : Nat) (levels : List Nat) (brackets : Nat)
-    (perBracket : Bool) : Manager :=
+    (perBracket : Bool) (numThr : Nat := 0) : Manager :=
   let nb := min brackets (levels.length + 1)
   let nsys := if perBracket then nb else 1
   let qs := promoteQuantiles levels maxT
   { type := type, mode := mode, maxT := maxT, rungLevels := levels, numBrackets := nb,
     perBracket := perBracket,
-    systems := (List.range nsys).map (fun s => mkRungSys (levels.drop s) (qs.drop s) maxT) }
+    systems := (List.range nsys).map (fun s => mkSys type numThr (levels.drop s) (qs.drop s) maxT) }
 
 /-- `_get_rung_system_for_bracket_id` : `(sys_id, skip_rungs)`. -/
 def Manager.sysFor (g : Manager) (bracket : Nat) : Nat × Nat :=
@@ -236,11 +419,15 @@ def Manager.taskAdd (g : Manager) (tid bracket : Nat) (resume : Option (Nat × N
       .ok (g1.setSys si s', first)
 
 /-- dispatch to the rung system of the scheduler type -/
-def Manager.sysReport (g : Manager) (s : RungSys) (tid r : Nat) (v : Rat) (skip : Nat) (hint : Bool) :
-    Except Err (RungSys × RepOut) :=
+def Manager.sysReport (g : Manager) (s : RungSys) (tid r : Nat) (v : Rat) (skip : Nat) (hint : Bool)
+    (cost : Rat := 0) (eps : Rat := 0) : Except Err (RungSys × RepOut) :=
   match g.type with
   | .stopping => .ok (s.stopReport g.mode tid r v skip hint)
+  | .rushStopping => .ok (s.rushStopReport g.mode tid r v skip hint)
   | .promotion => s.promoReport g.mode tid r v
+  | .rushPromotion => s.promoReport g.mode tid r v
+  | .costPromotion => s.promoReport g.mode tid r v cost
+  | .pasha => s.pashaReport g.mode tid r v eps
 
 /-- "If config just reached the last milestone in the bracket and survived,
 next_milestone is equal to max_t". -/
@@ -248,8 +435,8 @@ def fixNext (maxT : Nat) (o : RepOut) : RepOut :=
   if o.continues ∧ o.reached ∧ o.next = none then { o with next := some maxT } else o
 
 /-- `HyperbandBracketManager.on_task_report`. -/
-def Manager.taskReport (g : Manager) (tid r : Nat) (v : Rat) (hint : Bool) :
-    Except Err (Manager × RepOut) :=
+def Manager.taskReport (g : Manager) (tid r : Nat) (v : Rat) (hint : Bool)
+    (cost : Rat := 0) (eps : Rat := 0) : Except Err (Manager × RepOut) :=
   match alookup tid g.taskInfo with
   | none => .error (.keyError "_task_info")
   | some bracket =>
@@ -257,7 +444,7 @@ def Manager.taskReport (g : Manager) (tid r : Nat) (v : Rat) (hint : Bool) :
     | none => .error (.assertion "bracket index")
     | some s =>
       if r < g.maxT then
-        match g.sysReport s tid r v (g.sysFor bracket).2 hint with
+        match g.sysReport s tid r v (g.sysFor bracket).2 hint cost eps with
         | .error e => .error e
         | .ok res => .ok (g.setSys (g.sysFor bracket).1 res.1, fixNext g.maxT res.2)
       else
@@ -281,13 +468,11 @@ def Manager.taskSchedule (g : Manager) (bracket : Nat) (hint : Option Nat) :
   match g.systems[si]? with
   | none => .error (.assertion "bracket index")
   | some s =>
-    match g.type with
-    | .stopping => .ok (g, none, s.firstMilestone skip, false)
-    | .promotion =>
-      let (s', so, fr) := s.promoSchedule g.mode s.maxT hint
-      match so with
-      | some o => .ok (g.setSys si s', some o, o.milestone, fr)
-      | none => .ok (g.setSys si s', none, s.firstMilestone skip, fr)
+    if ¬ g.type.pauseResume then .ok (g, none, s.firstMilestone skip, false) else
+      let res := s.promoSchedule g.type g.mode hint
+      match res.2.1 with
+      | some o => .ok (g.setSys si res.1, some o, o.milestone, res.2.2)
+      | none => .ok (g.setSys si res.1, none, s.firstMilestone skip, res.2.2)
 
 /-! ### scheduler -/
 
@@ -317,6 +502,8 @@ structure Sched where
   pendingMyopic : Bool := false
   maxResourceAttr : Bool := false
   active : List (Nat × TrialInfo) := []
+  hasCost : Bool := false                       -- `cost_attr` given and reported
+  costOffset : List (Nat × Rat) := []           -- `_cost_offset`
 deriving Repr, Inhabited
 
 inductive Suggestion
@@ -426,21 +613,48 @@ def Sched.onResultLive (s : Sched) (tid r : Nat) (v : Rat) (rec : TrialInfo) (o 
   let s3 := if o.continues then s2 else s2.cleanup tid d
   .ok (s3, { decision := d, free := o.free, calls := upd.2 ++ [SCall.update tid r v ar.1] })
 
-/-- `HyperbandScheduler.on_trial_result` (cost handling is in the cost model). -/
-def Sched.onResult (s : Sched) (tid r : Nat) (v : Rat) (hint : Bool) : Except Err (Sched × ResOut) :=
+/-- `result[total_cost] = result[cost] + _cost_offset.get(trial_id, 0)` for pause/resume types
+when a cost is reported; otherwise the cost as reported. -/
+def Sched.totalCost (s : Sched) (tid : Nat) (cost : Rat) : Rat :=
+  if s.hasCost ∧ s.mgr.type.pauseResume then
+    cost + (match alookup tid s.costOffset with | some c => c | none => 0)
+  else cost
+
+/-- `_cost_offset` bookkeeping after the rung system answered. -/
+def Sched.costOffsetAfter (s : Sched) (tid : Nat) (total : Rat) (o : RepOut) :
+    Except Err (List (Nat × Rat)) :=
+  if s.hasCost ∧ s.mgr.type.pauseResume then
+    if o.reached then .ok (aset tid total s.costOffset)
+    else if o.ignoreData then
+      (match alookup tid s.costOffset with
+       | some _ => .ok (aset tid 0 s.costOffset)
+       | none => .error (.keyError "_cost_offset"))
+    else .ok s.costOffset
+  else .ok s.costOffset
+
+/-- everything `on_trial_result` does after `terminator.on_task_report` returned `(g, o)`. -/
+def Sched.afterReport (s : Sched) (tid r : Nat) (v : Rat) (rec : TrialInfo) (g : Manager) (o : RepOut)
+    (total : Rat) : Except Err (Sched × ResOut) :=
+  match s.costOffsetAfter tid total o with
+  | .error e => .error e
+  | .ok co =>
+    if o.ignoreData then
+      .ok ({ s with mgr := g, costOffset := co }, { decision := .continue, free := o.free, calls := [] })
+    else
+      ({ s with mgr := g, costOffset := co } : Sched).onResultLive tid r v rec o
+
+/-- `HyperbandScheduler.on_trial_result`. -/
+def Sched.onResult (s : Sched) (tid r : Nat) (v : Rat) (hint : Bool) (cost : Rat := 0) (eps : Rat := 0) :
+    Except Err (Sched × ResOut) :=
   match alookup tid s.active with
   | none => .error (.keyError "_active_trials")
   | some rec =>
     if rec.decision ≠ .continue then
       .ok (s, { decision := rec.decision, free := false, calls := [SCall.update tid r v false] })
     else
-      match s.mgr.taskReport tid r v hint with
+      match s.mgr.taskReport tid r v hint (s.totalCost tid cost) eps with
       | .error e => .error e
-      | .ok res =>
-        if res.2.ignoreData then
-          .ok ({ s with mgr := res.1 }, { decision := .continue, free := res.2.free, calls := [] })
-        else
-          ({ s with mgr := res.1 } : Sched).onResultLive tid r v rec res.2
+      | .ok res => s.afterReport tid r v rec res.1 res.2 (s.totalCost tid cost)
 
 /-- `on_trial_remove`. -/
 def Sched.onRemove (s : Sched) (tid : Nat) : Sched := s.cleanup tid .pause
